@@ -41,6 +41,8 @@ type SimPipe struct {
 	Opens           int
 	ReadsAfterClose int
 	blocking        bool // Fd() was called: the descriptor left the poller (see File.Fd)
+	readDeadline    time.Time
+	selfWriter      bool // opened O_RDWR by the reader itself
 }
 
 // AddPipe registers a simulated FIFO under path.
@@ -96,6 +98,14 @@ func OpenFile(name string, flag int, perm os.FileMode) (*File, error) {
 		s.park(t, "pipe.open", "point")
 	}
 	p.Opens++
+	if flag&os.O_RDWR != 0 {
+		// opening a FIFO read-write never blocks, and the opener holds a write reference of
+		// its own: end-of-stream is never signalled while it keeps the file open
+		p.writers++
+		p.everOpened = true
+		p.selfWriter = true
+		s.Count("pipe.opened_rdwr")
+	}
 	for !p.everOpened && p.openErr == nil {
 		// a FIFO opened O_RDONLY blocks until a writer opens it
 		sig := make(chan struct{})
@@ -133,10 +143,16 @@ func (f *File) Fd() uintptr {
 	return 3
 }
 
-// SetDeadline and friends exist on *os.File; FIFOs opened this way support them only while
-// pollable. They are accepted and ignored.
-func (f *File) SetReadDeadline(time.Time) error { return nil }
-func (f *File) SetDeadline(time.Time) error     { return nil }
+// SetReadDeadline models os.File.SetReadDeadline on a pollable FIFO: a Read that is (or
+// becomes) blocked returns os.ErrDeadlineExceeded when the (simulated) clock reaches t.
+func (f *File) SetReadDeadline(t time.Time) error {
+	if f.p.blocking {
+		return &fs.PathError{Op: "set", Path: f.p.Name, Err: os.ErrNoDeadline}
+	}
+	f.p.readDeadline = t
+	return nil
+}
+func (f *File) SetDeadline(t time.Time) error { return f.SetReadDeadline(t) }
 
 // Read implements the reader side of the FIFO.
 //
@@ -188,18 +204,40 @@ func (f *File) Read(b []byte) (int, error) {
 			s.Logf("pipe.read %s EOF", p.base)
 			return 0, io.EOF
 		}
+		if !p.readDeadline.IsZero() && !time.Now().Before(p.readDeadline) {
+			s.Count("pipe.read_deadline")
+			return 0, &fs.PathError{Op: "read", Path: p.Name, Err: os.ErrDeadlineExceeded}
+		}
 		sig := make(chan struct{})
 		p.sig = sig
 		p.BlockedRead = true
 		if t != nil {
 			t.setSite("pipe.read")
 		}
+		timedOut := false
 		raceDisable()
-		<-sig
+		if p.readDeadline.IsZero() {
+			<-sig
+		} else {
+			tm := time.NewTimer(time.Until(p.readDeadline))
+			select {
+			case <-sig:
+				tm.Stop()
+			case <-tm.C:
+				timedOut = true
+				if p.sig == sig {
+					p.sig = nil
+				}
+			}
+		}
 		raceEnable()
 		p.BlockedRead = false
 		if !pt {
 			s.park(t, "pipe.read+", "point")
+		}
+		if timedOut && len(p.buf) == 0 && !p.closed && p.readErr == nil && !(p.everOpened && p.writers == 0) {
+			s.Count("pipe.read_deadline")
+			return 0, &fs.PathError{Op: "read", Path: p.Name, Err: os.ErrDeadlineExceeded}
 		}
 	}
 }
@@ -213,6 +251,10 @@ func (f *File) Close() error {
 		return &fs.PathError{Op: "close", Path: p.Name, Err: os.ErrClosed}
 	}
 	p.closed = true
+	if p.selfWriter {
+		p.selfWriter = false
+		p.writers--
+	}
 	p.sim.Logf("pipe.closed %s", p.base)
 	if !(p.blocking && p.BlockedRead) {
 		p.wakeReader()
@@ -311,15 +353,19 @@ type WriteRec struct {
 }
 
 type SimDisk struct {
-	sim     *Sim
-	Path    string
-	Writes  []WriteRec
-	FailAt  int   // 1-based index of the write call that fails (0: never)
-	FailErr error // error returned by failing writes
-	FailAll bool  // every write from FailAt on fails
-	Calls   int
-	OnWrite func(rec *WriteRec) // online monitor
-	Closed  bool
+	sim      *Sim
+	Path     string
+	Initial  []byte // content of the file before the daemon opened it (a restart)
+	NoAppend bool   // the daemon opened the file without O_APPEND: writes go to its own offset, starting at 0
+	Missing  bool   // the file does not exist (only an open with O_CREATE succeeds)
+	Opened   int
+	Writes   []WriteRec
+	FailAt   int   // 1-based index of the write call that fails (0: never)
+	FailErr  error // error returned by failing writes
+	FailAll  bool  // every write from FailAt on fails
+	Calls    int
+	OnWrite  func(rec *WriteRec) // online monitor
+	Closed   bool
 }
 
 func (s *Sim) NewDisk(path string) *SimDisk {
@@ -364,13 +410,51 @@ func (d *SimDisk) Close() error                      { d.Closed = true; return n
 func (d *SimDisk) Sync() error                       { return nil }
 func (d *SimDisk) Name() string                      { return d.Path }
 
-// Content is the file content (concatenation of all successful appends).
+// Content is the file content: with O_APPEND the initial content followed by all successful
+// appends; without it the writes overwrite the file from offset 0 onwards.
 func (d *SimDisk) Content() []byte {
-	var out []byte
+	out := append([]byte(nil), d.Initial...)
+	if !d.NoAppend {
+		for _, w := range d.Writes {
+			out = append(out, w.Data...)
+		}
+		return out
+	}
+	off := 0
 	for _, w := range d.Writes {
-		out = append(out, w.Data...)
+		for len(out) < off+len(w.Data) {
+			out = append(out, 0)
+		}
+		copy(out[off:], w.Data)
+		off += len(w.Data)
 	}
 	return out
+}
+
+// OpenOutputFile replaces os.OpenFile / os.Create in package cmd (the events output).
+func OpenOutputFile(name string, flag int, perm os.FileMode) (*SimDisk, error) {
+	s := cur.Load()
+	if s == nil {
+		return nil, fmt.Errorf("simrt: no simulation installed")
+	}
+	if s.Output == nil {
+		s.NewDisk(name)
+	}
+	d := s.Output
+	if d.Missing && flag&os.O_CREATE == 0 {
+		return nil, &fs.PathError{Op: "open", Path: name, Err: syscall.ENOENT}
+	}
+	d.Missing = false
+	d.Path = name
+	d.Opened++
+	if flag&os.O_TRUNC != 0 {
+		d.Initial = nil
+	}
+	if flag&os.O_APPEND == 0 {
+		d.NoAppend = true
+		s.Count("disk.opened_without_append")
+	}
+	return d, nil
 }
 
 // OpenOutput replaces helpers.OpenAuditLogFileUntilSuccessWithContext in cmd.
